@@ -236,6 +236,14 @@ def run(tape, scenario):
                 viol("outputs-enabled-while-disabled",
                      f"group {g.no} frame {no}: wkc_errors was 0 (outputs disabled) but bytes "
                      f"{sorted(changed)} changed")
+            elif action == 3 and enabled_after and not g.info.get("wrapped"):
+                # the program ran but left the frame alone: what goes back onto the bus
+                # carries the outputs and counters of an earlier pass
+                viol("enabled-frame-retransmitted-without-program",
+                     f"group {g.no} frame {no}: sent back onto the bus with write datagram(s) "
+                     f"{[w[0] for w in enabled_after]} enabled although the group's program "
+                     f"did nothing in this pass (outputs disabled, wkc_errors 0)",
+                     outputs_disabled=True)
             return
         stats["activated"] += 1
         wrong = 0
@@ -252,6 +260,8 @@ def run(tape, scenario):
             got, = struct.unpack_from("<H", before, wkcpos)
             if got != exp:
                 wrong += 1
+        if errors_after == 0:
+            g.info["wrapped"] = True    # (the 32-bit counter came round to "disabled")
         if (errors_after - errors_before) & 0xffffffff != wrong:
             viol("wkc-error-count",
                  f"group {g.no} frame {no}: wkc_errors {errors_before} -> {errors_after}, "
@@ -310,6 +320,14 @@ def run(tape, scenario):
             if two:
                 await asyncio.sleep([0, 1e-3, 8e-3][tape.draw("c21/stagger", 3)])
         t_end = 0.04 + 0.02 * tape.draw("c21/runtime", 6)
+        if scenario == "wire-faults" and tape.chance("c21/user-space-starved", 25):
+            # for a while nothing reaches user space (its sockets overflow) although the
+            # frames go on circulating between dispatcher and bus
+            t0 = loop.time() + [0.005, 0.02, 0.04][tape.draw("c21/starved-from", 3)]
+            t1 = t0 + 0.105 + 0.02 * tape.draw("c21/starved-for", 4)
+            bus.socket_drop = lambda no, frame: t0 <= loop.time() < t1
+            t_end = max(t_end, t1 - loop.time() + 0.05)
+            world.count("c21/user-space-starved-over-100-ms")
         t = 0.0
         while t < t_end and not any(x.done() for x in tasks):
             dt = [0.002, 0.005, 0.011][tape.draw("c21/tick", 3)]
@@ -321,6 +339,53 @@ def run(tape, scenario):
                         if tape.chance("c21/set", 40):
                             setattr(dev, f"vo{j}", wl.draw_value(tape, ln, "c21")
                                     if not isinstance(ln["size"], int) else tape.draw("c21/bit", 2))
+        if scenario == "nofault" and not two and not any(x.done() for x in tasks) \
+                and not violations and tape.chance("c21/resized-and-started-again", 20):
+            # the group is stopped, the process data of one of its terminals grow (its
+            # PDO assignment was rewritten) and the same group object is started again:
+            # either that is refused, or what the kernel does fits the new frame
+            g = groups[0]
+            plain = [k for k in range(len(specs)) if not specs[k].get("aero")
+                     and owner[k] == 0 and any(ln["term"] == k for ln in g.links)]
+            if plain:
+                k = tape.pick("c21/resized-terminal", plain)
+                tasks[0].cancel()
+                await asyncio.wait(tasks, timeout=0.5)
+                for what, off in (("in", 24), ("out", 16)):
+                    if specs[k][f"{what}_sz"]:
+                        new = specs[k][f"{what}_sz"] + 1 + tape.draw(f"c21/grow-{what}", 8)
+                        specs[k][f"{what}_sz"] = new
+                        setattr(sims[k], f"{what}_sz", new)
+                        setattr(terms[k], f"pdo_{what}_sz", new)
+                        struct.pack_into("<H", sims[k].mem, 0x800 + off + 2, new)
+                sims[k].refresh_inputs()
+                g.info.clear()
+                g.pre.clear()
+                preset.clear()
+                world.count("c21/group-started-again-after-a-resize")
+                try:
+                    task = g.sg.start()
+                    await asyncio.sleep(0)
+                except Exception as e:
+                    world.count(f"c21/second-start-refused-{type(e).__name__}")
+                    tasks = []
+                else:
+                    if task.done() and not task.cancelled() and task.exception() is not None:
+                        # (on this tree the program of a group cannot be generated twice)
+                        world.count("c21/second-start-refused-"
+                                    f"{type(task.exception()).__name__}")
+                        tasks = []
+                    else:
+                        layout(g)
+                        tasks = [task]
+                        for _ in range(8):
+                            await asyncio.sleep(0.005)
+                            for dev in g.devices:
+                                for j, ln in enumerate(dev.outs):
+                                    if tape.chance("c21/set", 40):
+                                        setattr(dev, f"vo{j}", wl.draw_value(tape, ln, "c21")
+                                                if not isinstance(ln["size"], int)
+                                                else tape.draw("c21/bit", 2))
         wf.loss = 0
         for task in tasks:
             if task.done() and not task.cancelled():
